@@ -23,8 +23,9 @@ func init() {
 		Title: "Committed offsets are marked offsets, and no mark is lost",
 		Explain: "Decides on every path of offset_manager.go: the pending position is written only by MarkOffset under offset > pom.offset and by ResetOffset under offset <= pom.offset, each time with metadata and dirty = true (C06.monotone); dirty is cleared only when position and metadata still equal what was committed (C06.keep-dirty); a commit carries pom.offset/pom.metadata of dirty partitions read under the partition lock and the response is matched against the request's own block (C06.commit-what-was-marked); the request identifies the group, member and generation of this manager (C06.identity); " +
 			"Close stops the loop, marks the partitions closed, then flushes in a loop bounded by Offsets.Retry.Max before the forced release (C06.close); NextOffset returns the position if ≥ 0 else the configured initial one (C06.next); only an ErrNoError answer can clear dirty and missing blocks are reported (C06.errors); pom/om state is accessed under its lock (C06.lock, lockset analysis). " +
+			"under a consumer group the session's MarkOffset/ResetOffset/MarkMessage/Commit hand every call on to the partition's offset manager, whatever the state of the session context (C06.session-forwards). " +
 			"NOT covered: that a later commit is actually issued (ticker/liveness), coordinator fault classes beyond their code paths.",
-		Rules: []func(*Ctx){c06Monotone, c06KeepDirty, c06Commit, c06Identity, c06Close, c06Remaining, c06Next, c06Errors, c06Lock, c06Version, c06ErrLost, c06Recover, c06ManageOnce, c06ScanBeforeNil, c06FinalFlushIgnoresClosing, c06LoopGoneBeforeFlush, c06RefreshReregisters, c06EveryFlushAttempts, c06CloseOnCommitError},
+		Rules: []func(*Ctx){c06Monotone, c06KeepDirty, c06Commit, c06Identity, c06Close, c06Remaining, c06Next, c06Errors, c06Lock, c06Version, c06ErrLost, c06Recover, c06ManageOnce, c06ScanBeforeNil, c06FinalFlushIgnoresClosing, c06LoopGoneBeforeFlush, c06RefreshReregisters, c06EveryFlushAttempts, c06CloseOnCommitError, c06FinalFlushExits, c06SessionForwards},
 	})
 }
 
